@@ -169,7 +169,8 @@ let check (case : Sexp.t) : unit =
                      | _ -> None) log in
                  let o = oracle_by_query lps mirs in
                  (match distill_from (fun _ -> o) tol s O (nat_of_int d0) cpre layers with
-                  | Some r -> if ctree_eqb_shape r ct then bump "mirror_agree" else bump "mirror_mismatch"
+                  | Some r -> if ctree_eqb_shape r ct then bump "mirror_agree"
+                    else if hsig then bump "mirror_inexact_hsig" else bump "mirror_mismatch"
                   | None -> bump "mirror_mismatch")
                with Nonfinite -> bump "mirror_nonfinite");
               if ok_wf && ok_eq && ok_pts then result id "OK" "net" ""
